@@ -29,6 +29,28 @@ AddOK(x1, y1, x2, y2, x3, y3, lam, w1, w2, w3, dbl) ==
               ELSE ~Eq(x1, x2) /\ Cong(Add(Mul(lam, x2), y1), Add(Mul(lam, x1), y2), w1)
     /\ Cong(Add(Add(x3, x1), x2), Mul(lam, lam), w2)
     /\ Cong(Add(Add(y3, y1), Mul(lam, x3)), Mul(lam, x1), w3)
+(* ------------------------------ scalar multiplication chain ------------------------------ *)
+(* chain: steps [x1,y1,x2,y2,x3,y3,lam,w1k,w1s,w2k,w2s,w3k,w3s,dbl]; left-to-right double-and-add of scalar k on base (bx,by) *)
+StepOK(st) == AddOK(st.x1, st.y1, st.x2, st.y2, st.x3, st.y3, st.lam, [k |-> st.w1k, side |-> st.w1s, r |-> <<>>],
+                    [k |-> st.w2k, side |-> st.w2s, r |-> <<>>], [k |-> st.w3k, side |-> st.w3s, r |-> <<>>], st.dbl)
+Bit(k, j) == (At(k, (j \div 12) + 1) \div (2 ^ (j % 12))) % 2            \* bit j (0 = least significant) of limb sequence k
+RECURSIVE TopBit(_, _)
+TopBit(k, j) == IF j < 0 THEN -1 ELSE IF Bit(k, j) = 1 THEN j ELSE TopBit(k, j - 1)
+(* walk: state = <<x, y, next step index>>; for bits below the top one: double, then add the base if the bit is set *)
+ChainOK(k, bx, by, chain, rx, ry) ==
+    LET top == TopBit(k, 12 * Len(k) - 1)
+        run == FoldLeft(LAMBDA acc, jj :
+                   LET j == top - jj                                   \* bit index processed (top-1 down to 0)
+                       s1 == chain[acc[3]] IN
+                   IF ~acc[4] THEN acc
+                   ELSE LET okd == s1.dbl /\ Eq(s1.x1, acc[1]) /\ Eq(s1.y1, acc[2]) /\ StepOK(s1) IN
+                        IF Bit(k, j) = 0 THEN <<s1.x3, s1.y3, acc[3] + 1, okd>>
+                        ELSE LET s2 == chain[acc[3] + 1]
+                                 oka == ~s2.dbl /\ Eq(s2.x1, s1.x3) /\ Eq(s2.y1, s1.y3) /\ Eq(s2.x2, bx) /\ Eq(s2.y2, by) /\ StepOK(s2) IN
+                             <<s2.x3, s2.y3, acc[3] + 2, okd /\ oka>>,
+                   <<bx, by, 1, top >= 0>>, [jj \in 1..top |-> jj])
+    IN run[4] /\ Eq(run[1], rx) /\ Eq(run[2], ry) /\ run[3] = Len(chain) + 1
+
 (* scalars *)
 ScalarInRange(d) == ~IsZero(d) /\ Lt(Add(d, One), N)          \* 1 <= d <= n-2
 SigScalarInRange(r) == ~IsZero(r) /\ Lt(r, N)                 \* 1 <= r <= n-1
